@@ -86,6 +86,9 @@ func ScramSHA256PlusAuth(username, password string, tlsConnState *tls.Connection
 
 // Start initializes the SCRAM authentication process and returns the selected algorithm, nil data, and no error.
 func (a *scramAuth) Start(_ *ServerInfo) (string, []byte, error) {
+	// an Auth value may serve several connections: nothing of an earlier exchange (its salted
+	// password and auth message verify that exchange's server signature) carries over
+	a.reset()
 	return a.algorithm, nil, nil
 }
 
